@@ -1095,6 +1095,20 @@ def is2(F, R):
                 if fld in s_ and "to_le_bytes" in s_ and rng is not None and rng["$a"][0] == "c" and rng["$b"][0] == "c":
                     got[fld] = (rng["$a"][1], rng["$b"][1])
     R.require(got == want, fn, "offsets", "info-sector fields written at %s, FAT spec (FSI_Free_Count, FSI_Nxt_Free) says %s" % (got, want), fn.loc(0))
+    # nothing else of the sector is touched: every view of the mutable block is one of the two 4-byte ranges (the three
+    # signatures, the reserved bytes and the boot-code area stay as they were read)
+    viewed = []
+    for b, t in fn.calls():
+        c = callee_of(t) or ""
+        if c.endswith(("IndexMut::index_mut", "Index::index")) and has_sub(fn.term_of_operand(t["args"][0], b), lambda q: q[0] == "call" and q[1] and path_matches(q[1], "BlockCache::read_mut")):
+            ix = fn.term_of_operand(t["args"][1], b)
+            rng = find_sub(ix, ("agg", "Range", ["$a", "$b"]))
+            if rng is not None and rng["$a"][0] == "c" and rng["$b"][0] == "c" and ix[0] == "agg" and ix[2] and ix[2].endswith("ops::Range::Range"):
+                viewed.append((rng["$a"][1], rng["$b"][1]))
+            else:
+                viewed.append(tstr(ix)[:60])
+    stores = [fn.loc(b, i) for b, i, s in fn.stmts() if s["k"] == "Assign" and s["p"]["proj"] and any(e[0] == "index" or e[0] == "constindex" for e in s["p"]["proj"])]
+    R.require(sorted(map(str, viewed)) == sorted(map(str, want.values())) and not stores, fn, "only-the-two-fields", "update_info_sector touches more of the FSInfo sector than FSI_Free_Count [488..492) and FSI_Nxt_Free [492..496): views %s, direct stores %s (bytes 496..512 hold the reserved area and the trail signature)" % (viewed, stores), fn.loc(0))
     rms = [(b, t) for b, t in fn.calls() if call_matches(t, ("BlockCache::read_mut",))]
     okloc = False
     if len(rms) == 1:
